@@ -255,6 +255,11 @@ class _Gen:
         rng = self.rng
         d = {"start": self.clock.start(), "end": None, "status": None, "status_details": None, "steps": []}
         d["steps"] = [self.step() for _ in range(self.count(self.cfg["steps"]))]
+        # steps of one result often bear the same description: every lcc.Thread started by a test opens a step of its own with
+        # the description of its creator's current step (and a test may call set_step twice with the same text)
+        for i in range(1, len(d["steps"])):
+            if rng.random() < 0.3:
+                d["steps"][i]["description"] = d["steps"][i - 1]["description"]
         d["end"] = self.end()
         if d["end"] is None:
             d["status"] = None if rng.random() < 0.7 else rng.choice(STATUSES)
